@@ -19,7 +19,9 @@ macro_rules! h {
         #[kani::stub(std::alloc::alloc, alloc_stub)]
         #[kani::stub(alloc::alloc::dealloc_nonnull, dealloc_stub)]
         fn $name() {
-            $body
+            crate::ghost::arm();
+            $body;
+            kani::cover!(true, "end of harness reached");
         }
     };
 }
@@ -182,6 +184,7 @@ h!(q_zst_header_once, {
 #[kani::stub(std::alloc::alloc, alloc_stub)]
 #[kani::stub(alloc::alloc::dealloc_nonnull, dealloc_stub)]
 fn qp_deprecated_write_any_count() {
+    crate::ghost::arm();
     let a: Arc<MaybeUninit<Dt>> = Arc::new_uninit();
     let w = ManuallyDrop::new(unsafe { core::ptr::read(&a) });
     let mut h = a;
@@ -201,6 +204,7 @@ fn qp_deprecated_write_any_count() {
 #[kani::stub(std::alloc::alloc, alloc_stub)]
 #[kani::stub(alloc::alloc::dealloc_nonnull, dealloc_stub)]
 fn qp_deprecated_as_mut_slice_any_count() {
+    crate::ghost::arm();
     let a: Arc<[MaybeUninit<u16>]> = Arc::new_uninit_slice(2);
     let w = ManuallyDrop::new(unsafe { core::ptr::read(&a) });
     let mut h = a;
@@ -218,6 +222,7 @@ fn qp_deprecated_as_mut_slice_any_count() {
 #[kani::stub(std::alloc::alloc, alloc_stub)]
 #[kani::stub(alloc::alloc::dealloc_nonnull, dealloc_stub)]
 fn qp_deprecated_write_shared_never_returns() {
+    crate::ghost::arm();
     let a: Arc<MaybeUninit<u16>> = Arc::new_uninit();
     let other = a.clone();
     let mut h = a;
